@@ -44,6 +44,12 @@ class MissingType:
     def __lt__(self,other):
        return False
 
+    def __ge__(self,other):
+       return True
+
+    def __le__(self,other):
+       return self == other
+
     def __eq__(self,other):
         return other is None or super().__eq__(other)
 
@@ -82,8 +88,8 @@ def moving_average(values:Sequence[float], span:Union[int,Sequence[float]]=None,
 
 #this adds one more check on average but avoids the worst case
 #scenario, which can be common for certain types of experiments.
-def my_bisect_left (c,a,l,h): return l if c[l]  ==a else bisect_left (c,a,l,h)
-def my_bisect_right(c,a,l,h): return h if c[h-1]==a else bisect_right(c,a,l,h)
+def my_bisect_left (c,a,l,h): return l if l<h and c[l]  ==a else bisect_left (c,a,l,h)
+def my_bisect_right(c,a,l,h): return h if l<h and c[h-1]==a else bisect_right(c,a,l,h)
 
 class View:
     __slots__ = ('_data','_select')
@@ -309,13 +315,13 @@ class Table:
         if kwargs:
             selection = []
             for kw,arg in kwargs.items():
-                if isinstance(arg,dict): comparison = next(iter(arg.keys()))
-                if kw in self._indexes and comparison != "match" and not callable(arg):
+                compare = next(iter(arg.keys())) if isinstance(arg,dict) else comparison
+                if kw in self._indexes and compare != "match" and not callable(arg):
                     for lo,hi in self._lohis[kw]:
-                        for l,h in self._compare(lo,hi,self._data[kw],arg,comparison,"bisect"):
+                        for l,h in self._compare(lo,hi,self._data[kw],arg,compare,"bisect"):
                             selection.extend(range(l,h))
                 else:
-                    selection.extend(self._compare(0,len(self),self._data[kw],arg,comparison,"foreach"))
+                    selection.extend(self._compare(0,len(self),self._data[kw],arg,compare,"foreach"))
 
             if len(kwargs) > 1: selection=sorted(set(selection))
 
@@ -424,7 +430,7 @@ class Table:
     def _compare(self,lo,hi,col,arg,comparison,method):
         if isinstance(arg,dict) and len(arg) == 1:
             key,value = list(arg.items())[0]
-            if key in ['=','!=','<=','<','>','>=','match','in']:
+            if key in ['=','!=','<=','<','>','>=','match','in','!in']:
                 comparison,arg = key,value
 
         if method != "bisect" or callable(arg):
@@ -435,7 +441,7 @@ class Table:
 
         if comparison == "in" or (comparison is None and isinstance(arg,collections.abc.Iterable) and not isinstance(arg,str)):
             if method == "bisect":
-                return [ (my_bisect_left(col,v,lo,hi),my_bisect_right(col,v,lo,hi)) for v in sorted(arg) ]
+                return [ (my_bisect_left(col,v,lo,hi),my_bisect_right(col,v,lo,hi)) for v in sorted(set(arg)) ]
             else:
                 return [ i for i,c in enumerate(col,lo) if c in arg ]
 
